@@ -85,6 +85,36 @@ def nom_bytes_cases(rng, tier):
             out.append('N x ' + hexs((f % v).encode()))
     return out
 
+def sentence_path_cases(rng, tier):
+    """C13/C14/C15 (and C03, C17 through them): messages with a variable-length tail sent as sentences, for
+    every phase of the payload length against the byte grid and every fill count, the fill positions of
+    the last character holding ones / random bits (the receiver has to clear them before any decoder reads
+    "what is left"); and each such sentence followed, on the same parser, by the same payload announced with
+    another fill count and by a variant differing in one sentence field (stale-result caches)"""
+    out = []
+    def tail_bits(t, n):
+        if t == 5: return gen.message_bits(rng, 5)[:302 + n]
+        if t == 24:
+            vals = gen.rand_values(rng, gen.LAYOUTS[24] + gen.PART_A, 'random'); vals['type'] = 24; vals['part'] = 0
+            return gen.bits_of(gen.LAYOUTS[24] + gen.PART_A, vals)[:160 + (n % 8)]
+        fl = gen.LAYOUTS[t]
+        vals = gen.rand_values(rng, fl, 'random'); vals['type'] = t
+        return gen.bits_of(fl, vals) + ''.join(rng.choice('01') for _ in range(n))
+    for t in (5, 6, 8, 12, 14, 17, 24):
+        for n in list(range(0, 50)) + [rng.randrange(50, 300) for _ in range(scale(tier, 6, 60))]:
+            bits = tail_bits(t, n)
+            for garbage in ('111111', ''.join(rng.choice('01') for _ in range(6))):
+                pay, fill = gen.armor(bits, garbage)
+                line = gen.sentence(pay, fill)
+                out.append('H'); out.append(L(0, 1, line))
+                # the same payload under every other fill count, and one-field variants, on the same parser
+                f2 = rng.choice([f for f in range(6) if f != fill])
+                out.append(L(0, 1, gen.sentence(pay, f2)))
+                out.append(L(0, 1, line))
+                out.append(L(0, 1, gen.sentence(pay, fill, chan=b'B')))
+                out.append(L(0, 1, gen.sentence(pay[:-1] + bytes([gen.armor_char(rng.randrange(64))]), fill)))
+    return out
+
 def bulk_cases(rng, tier, types=None, per_type=None):
     """plain volume: plausible payloads of every type (identities with decimal structure, all other
     fields uniformly random) — finds dependences of a field on the *value* of another field that
@@ -762,6 +792,26 @@ def reassembly_cases(rng, tier):
                 out.append(C(0, rng.randrange(2), x))
             out.append(C(0, d, fr))
         out.append(C(0, d, gen.sentence(pay, fill)))     # the same payload unfragmented
+    # consecutive fragments that look alike: same length and same checksum (the only difference a receiver
+    # can rely on is the fragment number), identical payload parts, and parts differing in one character
+    for _ in range(scale(tier, 40, 400)):
+        t = rng.choice([5, 6, 8, 12, 14, 17, 19, 21])
+        pay, fill = gen.armor(gen.message_bits(rng, t, 'random'))
+        n = rng.choice([2, 3, 4]); L0 = len(pay) // n
+        if L0 < 3: continue
+        parts = [bytearray(pay[i * L0:(i + 1) * L0]) for i in range(n - 1)] + [bytearray(pay[(n - 1) * L0:(n - 1) * L0 + L0])]
+        sid = rng.choice([None, 3, 7])
+        def line(i): return gen.sentence(bytes(parts[i]), fill if i == n - 1 else 0, n, i + 1, sid)
+        j = rng.randrange(n - 1)          # make fragment j+1 collide with fragment j
+        mode = rng.randrange(3)
+        if mode == 0: parts[j + 1] = bytearray(parts[j])
+        for _try in range(4000):
+            a, b = line(j), line(j + 1)
+            if a[-2:] == b[-2:] and len(a) == len(b): break
+            k = rng.randrange(len(parts[j + 1])); parts[j + 1][k] = rng.choice(gen.ALPHABET)
+        out.append('H c')
+        for i in range(n): out.append(C(0, 1, line(i)))
+        out.append(C(0, 1, gen.sentence(b''.join(bytes(p) for p in parts), fill)))
     # all split points of short payloads
     for t in (10, 27, 7):
         pay, fill = gen.armor(gen.message_bits(rng, t, 'random'))
